@@ -1,6 +1,7 @@
 package main
 
 import (
+	"sync"
 	"crypto/sha1"
 	"encoding/json"
 	"flag"
@@ -261,13 +262,27 @@ func cmdCheck(args []string) int {
 	nViol := 0
 	knownPrinted := map[string]bool{}
 	kf := loadKnown()
-	for _, h := range hs {
-		cfg := ExploreCfg{Workers: *workers, Budget: tc.budget, Timeout: tc.qt, Solvers: tc.solvers, Cross: tc.cross}
-		if sv := e.harnessSolvers(h); sv != nil {
-			cfg.Solvers = sv
-		}
-		sum := e.explore(h, cfg)
-		sum.CoverWanted = e.wantedCovers(e.pkg.Func(h))
+	// all harnesses of the property run concurrently; a global semaphore keeps
+	// the number of simultaneously executing paths at the worker count
+	e.cpuSem = make(chan struct{}, *workers)
+	results := make([]*Summary, len(hs))
+	var hwg sync.WaitGroup
+	for i, h := range hs {
+		hwg.Add(1)
+		go func(i int, h string) {
+			defer hwg.Done()
+			cfg := ExploreCfg{Workers: *workers, Budget: tc.budget, Timeout: tc.qt, Solvers: tc.solvers, Cross: tc.cross}
+			if sv := e.harnessSolvers(h); sv != nil {
+				cfg.Solvers = sv
+			}
+			sum := e.explore(h, cfg)
+			sum.CoverWanted = e.wantedCovers(e.pkg.Func(h))
+			results[i] = sum
+		}(i, h)
+	}
+	hwg.Wait()
+	for i, h := range hs {
+		sum := results[i]
 		sums = append(sums, sum)
 		printSummary(sum)
 		for _, u := range sum.Unsupported {
